@@ -1,6 +1,7 @@
 import Pcore.Proofs.FormatUnparse
 import Pcore.Proofs.FormatContainer
 import Pcore.Proofs.FormatRef
+import Pcore.Proofs.FormatCtor
 import Pcore.Generated.FormatLetters
 /-!
 # C20 — String formatting is total and faithful to the format directive
@@ -41,10 +42,13 @@ Full statement / proved / missing
                          (`%#07x` of 256 is `0x0000100`; known finding C20-go-fmt-alt-zeropad).
 * `C20_radix_back`     — letters d x X o b B: `readRadix` of the rendering is the integer, for ALL integers and
                          directives (the two classes above included), except 0 with precision 0 for d x X o.
-* `C20_ctor_back_full` — the same round trip through pcore's own Integer constructor `new(Integer, text, radix)` is FALSE:
-                         `C20_ctor_back_fails` (known finding C20-integer-ctor-text: hexadecimal digits without a
-                         prefix, any radix prefix, zero-padded decimals with 8/9 are not read back); the constructor
-                         (`newInteger`: signature pattern + strconv.ParseInt) is modelled and compared (op `back`).
+* `C20_bin_ref`        — letters b B (pcore's own code): the rendering equals the same reference `cRef` for ALL integers,
+                         flags, widths and precisions, no excluded class (0 with precision 0 prints the digit 0).
+* `C20_ctor_back`      — the round trip through pcore's own Integer constructor `new(Integer, text, radix)`
+                         (`newInteger`: signature pattern + integerFromString + strconv.ParseInt, modelled and compared,
+                         op `back`): for d o b B with any flags/precision and x X with `#`, no width, every Int64.
+                         The full statement `C20_ctor_back_full` is FALSE: `C20_ctor_back_fails` (known finding
+                         C20-integer-ctor-hex: `%x` renders `ff`, which the signature rejects without `0x`).
 * `C20_width`          — scalars: at least `w` runes wide (letters whose digits come from fmt's float code excluded).
 * `C20_pad_side_text`, `C20_pad_side_pbB`, `C20_pad_side_int` — blanks on the left unless `-`; zeros only from fmt's
                          integer code (between sign/prefix and digits, by `C20_int_ref_partial`) and the b/B precision.
@@ -267,6 +271,25 @@ example : formatDirective io0 "% 06d".toList (.int (-42)) = .text "-00042".toLis
     ¬ zeroClass ⟨false, true, false, false, true, some 6, none, 'd'⟩ (-42) ∧
     ¬ altZeroPad ⟨false, true, false, false, true, some 6, none, 'd'⟩ := by decide +kernel
 
+/-- **letters b B = the printf reference** (pcore's own code): for ALL integers, flag sets, widths and precisions —
+    no excluded class; the one point left out is 0 with precision 0, where the branch prints the digit 0 (as Ruby) -/
+theorem C20_bin_ref (io : FloatIO) (d : Str) (f : Fmt) (i : Int) (h : Directive d f)
+    (hb : f.letter = 'b' ∨ f.letter = 'B') (hne : ¬ (i = 0 ∧ f.prec = some 0)) :
+    formatDirective io d (.int i) = .text (cRef (pbbSpec f) i) := by
+  have hr : isRadixLetter f.letter = true := by rcases hb with h' | h' <;> rw [h'] <;> decide
+  have hi : ¬ isIntLetter f.letter = true := by rcases hb with h' | h' <;> rw [h'] <;> decide
+  have hp : isPbB f.letter = true := by rcases hb with h' | h' <;> rw [h'] <;> decide
+  have hplus : PlusOK f := (parseFormat_wf d none none f h (parseFormat_numOK d none none f h)).plus
+  rw [formatDirective_int io d f i h (not_float_of_radix _ hr)]
+  unfold fmtIntCore
+  rw [if_neg hi, if_pos hp, intPbB_eq_cRef f i hb hplus hne]
+
+example : formatDirective io0 "%+#012b".toList (.int 5) = .text "+0b000000101".toList ∧
+    formatDirective io0 "%-+8.4B|".toList (.int 5) = .reported .invalidSpec ∧
+    formatDirective io0 "% -8.4B".toList (.int 5) = .text " 0101   ".toList ∧
+    formatDirective io0 "%b".toList (.int (-9223372036854775808)) =
+      .text ('-' :: '1' :: List.replicate 63 '0') := by decide +kernel
+
 /-! ## radix renderings convert back -/
 
 theorem formatDirective_eq_fmtIntCore_text (f : Fmt) (i : Int) (g : GoSpec) (hl : isIntLetter f.letter = true)
@@ -311,8 +334,8 @@ def C20_ctor_back_full : Prop := ∀ (io : FloatIO) (d : Str) (f : Fmt) (i : Int
   ¬ (i = 0 ∧ f.prec = some 0 ∧ isIntLetter f.letter = true) →
   ∃ s, formatDirective io d (.int i) = .text s ∧ newInteger s (letterRadix f.letter) = .int i
 
-/-- known finding C20-integer-ctor-text: `%x` of 255 renders "ff", which the constructor's signature rejects; `%#b`
-    of 5 renders "0b101", which strconv.ParseInt with radix 2 rejects; `%.3d` of 8 renders "008", rejected as well -/
+/-- known finding C20-integer-ctor-hex: `%x` of 255 renders "ff", which the constructor's signature rejects (it admits
+    hexadecimal digits only after `0x`, as Puppet's does) -/
 theorem C20_ctor_back_fails : ¬ C20_ctor_back_full := by
   intro h
   obtain ⟨s, hs, hn⟩ := h io0 "%x".toList (parsed "%x") 255 (by decide +kernel) (by decide +kernel) (by decide +kernel)
@@ -320,6 +343,65 @@ theorem C20_ctor_back_fails : ¬ C20_ctor_back_full := by
   have h1 : formatDirective io0 "%x".toList (.int 255) = .text "ff".toList := by decide +kernel
   rw [h1] at hs; cases hs
   revert hn; decide +kernel
+
+theorem letterRadix_verbBase (c : Char) (b : Nat) (u : Bool) (h : verbBase c = some (b, u)) : letterRadix c = b := by
+  unfold verbBase at h
+  unfold letterRadix
+  by_cases hd : c = 'd'
+  · rw [if_pos hd] at h; cases h; subst hd; decide
+  · rw [if_neg hd] at h
+    by_cases hx : c = 'x'
+    · rw [if_pos hx] at h; cases h; subst hx; decide
+    · rw [if_neg hx] at h
+      by_cases hX : c = 'X'
+      · rw [if_pos hX] at h; cases h; subst hX; decide
+      · rw [if_neg hX] at h
+        by_cases ho : c = 'o'
+        · rw [if_pos ho] at h; cases h; subst ho; decide
+        · rw [if_neg ho] at h; cases h
+
+/-- **radix renderings read back through pcore's own Integer constructor**: letters d o b B with any flags and
+    precision, and x X with `#`; no width (blanks before the sign or after the digits are not part of what the
+    constructor reads); every Int64; the empty rendering of 0 with precision 0 excepted -/
+theorem C20_ctor_back (io : FloatIO) (d : Str) (f : Fmt) (i : Int) (h : Directive d f)
+    (hl : isRadixLetter f.letter = true) (hx : f.letter = 'x' ∨ f.letter = 'X' → f.alt = true) (hw : f.width = none)
+    (h1 : -(2^63 : Int) ≤ i) (h2 : i < 2^63) (hne : ¬ (i = 0 ∧ f.prec = some 0 ∧ isIntLetter f.letter = true)) :
+    ∃ s, formatDirective io d (.int i) = .text s ∧ newInteger s (letterRadix f.letter) = .int i := by
+  obtain ⟨g, hg, hgv, hgw, hgp, _, hgs, _⟩ := (C20_directive_go d f h).spec
+  rw [formatDirective_int io d f i h (not_float_of_radix _ hl)]
+  by_cases hi : isIntLetter f.letter = true
+  · obtain ⟨b, u, hvb⟩ := verbBase_of_int g.verb (by rw [hgv]; exact hi)
+    refine ⟨goInteger g b u i, formatDirective_eq_fmtIntCore_text f i g hi hg b u hvb, ?_⟩
+    rw [← hgv, letterRadix_verbBase g.verb b u hvb]
+    apply goInteger_ctor_back g i b u hvb (by rw [hgw, hw]) (by rw [hgp]; intro hh; exact hne ⟨hh.1, hh.2, hi⟩) h1 h2
+    intro h16
+    rw [hgs]; apply hx
+    unfold verbBase at hvb
+    rw [hgv] at hvb
+    by_cases hd : f.letter = 'd'
+    · rw [if_pos hd] at hvb; cases hvb; omega
+    · rw [if_neg hd] at hvb
+      by_cases hx' : f.letter = 'x'
+      · exact Or.inl hx'
+      · rw [if_neg hx'] at hvb
+        by_cases hX : f.letter = 'X'
+        · exact Or.inr hX
+        · rw [if_neg hX] at hvb
+          by_cases ho : f.letter = 'o'
+          · rw [if_pos ho] at hvb; cases hvb; omega
+          · rw [if_neg ho] at hvb; cases hvb
+  · have hb : f.letter = 'b' ∨ f.letter = 'B' := by
+      simp only [isRadixLetter, isIntLetter, Bool.or_eq_true, decide_eq_true_eq] at hl hi
+      tauto
+    have hp : isPbB f.letter = true := by rcases hb with h' | h' <;> rw [h'] <;> decide
+    have hplus : PlusOK f := (parseFormat_wf d none none f h (parseFormat_numOK d none none f h)).plus
+    have hr : letterRadix f.letter = 2 := by rcases hb with h' | h' <;> rw [h'] <;> decide
+    refine ⟨intPbB f i, ?_, by rw [hr]; exact intPbB_ctor_back f i hb hplus hw h1 h2⟩
+    unfold fmtIntCore
+    rw [if_neg hi, if_pos hp]
+
+example : formatDirective io0 "%+#.6x".toList (.int (-255)) = .text "-0x0000ff".toList ∧
+    newInteger "-0x0000ff".toList 16 = .int (-255) ∧ newInteger " 0b101".toList 2 = .int 5 := by decide +kernel
 
 example : newInteger "0b101".toList 2 = .int 5 ∧ newInteger "008".toList 10 = .int 8 ∧ newInteger "-0xff".toList 16 = .int (-255) ∧
     newInteger "- 5".toList 10 = .int (-5) ∧ newInteger "0xff".toList 10 = .reported .notInteger ∧
